@@ -28,7 +28,7 @@ KindsOfN(n) == IF n = "resources" THEN {"resources", "templates"} ELSE {n}
 
 M0 == [off |-> {}, want |-> <<>>, era |-> <<>>, closed |-> {}, names |-> <<>>, ver |-> <<>>, cv |-> <<>>,
        chgB |-> <<>>, chgE |-> <<>>, sends |-> <<>>, acnt |-> <<>>, ucnt |-> <<>>, handled |-> <<>>,
-       ent |-> <<>>, usub |-> <<>>, calls |-> <<>>, updB |-> 0, open |-> {}]
+       ent |-> <<>>, usub |-> <<>>, unsubbing |-> {}, calls |-> <<>>, updB |-> 0, open |-> {}]
 
 Get(f, k, d) == IF k \in DOMAIN f THEN f[k] ELSE d
 Put(f, k, v) == [x \in DOMAIN f \cup {k} |-> IF x = k THEN v ELSE f[x]]
@@ -72,8 +72,10 @@ OnUpdatedBegin(e) == m' = [m EXCEPT !.cv = Put(m.cv, e.u, e.cv), !.updB = e.seq]
 \* ResourceUpdated has returned: it handed the notification to exactly the sessions subscribed to the URI
 OnUpdatedEnd(e) ==
   LET to == {s \in DOMAIN m.era : \E i \in DOMAIN Get(m.sends, <<s, e.u>>, <<>>) : m.sends[<<s, e.u>>][i].seq > m.updB}
-      sub == Get(m.usub, e.u, {}) IN
-  /\ \A s \in to \ sub : Fail2("C18.UpdatedExactlySubscribers", s, "extra")
+      sub == Get(m.usub, e.u, {})
+      \* a session whose unsubscribe the server is still processing (its UnsubscribeHandler has not returned) may get it
+      may == sub \cup {s \in DOMAIN m.era : <<s, e.u>> \in m.unsubbing} IN
+  /\ \A s \in to \ may : Fail2("C18.UpdatedExactlySubscribers", s, "extra")
   /\ \A s \in sub \ to : Fail2("C18.UpdatedExactlySubscribers", s, "missing")
   /\ m' = m
 
@@ -115,11 +117,14 @@ OnListEnd(e) ==
   /\ m' = m
 
 OnSubEnd(e) == m' = IF e.ok THEN [m EXCEPT !.usub = Put(m.usub, e.u, Get(m.usub, e.u, {}) \cup {e.s})] ELSE m
-OnUnsubBegin(e) == m' = [m EXCEPT !.usub = Put(m.usub, e.u, Get(m.usub, e.u, {}) \ {e.s})]
+OnUnsubBegin(e) == m' = [m EXCEPT !.usub = Put(m.usub, e.u, Get(m.usub, e.u, {}) \ {e.s}),
+                                  !.unsubbing = @ \cup {<<e.s, e.u>>}]
+OnSrvUnsubExit(e) == m' = [m EXCEPT !.unsubbing = @ \ {<<e.s, e.u>>}]
 
 OnCloseBegin(e) ==
   m' = [m EXCEPT !.ent = [x \in DOMAIN m.ent |-> IF x[1] = e.s THEN 0 ELSE m.ent[x]],
-                 !.usub = [u \in DOMAIN m.usub |-> m.usub[u] \ {e.s}], !.open = @ \ {e.s}]
+                 !.usub = [u \in DOMAIN m.usub |-> m.usub[u] \ {e.s}], !.open = @ \ {e.s},
+                 !.unsubbing = {x \in m.unsubbing : x[1] # e.s}]
 OnCloseEnd(e) == m' = [m EXCEPT !.closed = @ \cup {e.s}]
 
 \* subscriptions of closed sessions are forgotten (snapshot of the server's maps, taken under its lock)
@@ -171,6 +176,7 @@ Step(e) ==
     [] e.ev = "list.end"      -> OnListEnd(e)
     [] e.ev = "sub.end"       -> OnSubEnd(e)
     [] e.ev = "unsub.begin"   -> OnUnsubBegin(e)
+    [] e.ev = "srv.unsub.exit" -> OnSrvUnsubExit(e)
     [] e.ev = "close.begin"   -> OnCloseBegin(e)
     [] e.ev = "close.end"     -> OnCloseEnd(e)
     [] e.ev = "step"          -> OnSnap(e)
